@@ -1032,9 +1032,10 @@ class NetWorld(World):
         def same(geo):
             if not m.get("ragged"):
                 return [list(p) for p in geo] == coords
-            # after a geographic round trip the end vertices of the edges meeting at a junction differ
-            # in the last digits: the chain is compared to a micrometre
-            return len(geo) == len(coords) and all(math.dist(p, c) <= 1e-6 for p, c in zip(geo, coords))
+            # after a geographic round trip (coordinates written as degrees with ten decimals: about
+            # 1e-5 m) a junction and the end vertices of the edges added since differ in the last
+            # digits: the chain is compared to a tenth of a millimetre
+            return len(geo) == len(coords) and all(math.dist(p, c) <= 1e-4 for p, c in zip(geo, coords))
         if not any(same(geo) for geo in okw):
             self.fail("C07", "path.geometry", "%s: geometry of %s is not the chained, travel-oriented edge polylines"
                       % (where, path), [list(p) for p in okw[0]], coords, zero_weight_edges=zero)
